@@ -190,6 +190,11 @@ func (t *SessionTeardown) HandleClientPADT(session *Session, clientMAC net.Hardw
 
 // TerminateSession initiates server-side session termination
 func (t *SessionTeardown) TerminateSession(session *Session, cause TerminateCause, errorMessage string) error {
+	// Nothing to do for a session that has already been torn down
+	if session.isTornDown() {
+		return nil
+	}
+
 	t.logger.Info("Server-initiated session termination",
 		zap.Uint16("session_id", session.ID),
 		zap.String("username", session.Username),
@@ -257,6 +262,13 @@ func (t *SessionTeardown) waitForLCPTermAck(session *Session) bool {
 func (t *SessionTeardown) cleanup(session *Session, cause TerminateCause) error {
 	t.mu.Lock()
 	defer t.mu.Unlock()
+
+	// A session is torn down exactly once, whoever gets here first (client
+	// PADT, timeout, admin or RADIUS disconnect, shutdown): a second caller
+	// must not send another Accounting-Stop or release the address again
+	if !session.markTornDown() {
+		return nil
+	}
 
 	ctx, cancel := context.WithTimeout(context.Background(), t.config.CleanupTimeout)
 	defer cancel()
